@@ -1,6 +1,7 @@
 import Webp.Go.Canon
 import Webp.Spec.VP8L
 import Webp.Impl.VP8LPlanCheck
+import Webp.Impl.Alpha
 import Driver.LTransform
 /-
   Line-protocol handler for property C01, stage 4 (suite `c01full`): the per-input certificate.
@@ -15,6 +16,17 @@ import Driver.LTransform
 
     answer  ok file=<0|1> stream=<0|1> encodes=<0|1> groups=<n> bits=<histoBits> cb=<cacheBits> xf=<kinds|-> ntok=<n>
           | err container | err extract
+
+    c07alph <w> <h> <chunk> <plane>
+        <chunk>     the payload of a real ALPH chunk (header byte + data), hex
+        <plane>     the source alpha plane, w*h bytes, hex
+    answer  ok method=0 filter=<f>                      raw chunk: nothing to certify
+          | ok method=1 filter=<f> payload=<0|1> valid=<0|1> groups=<n> cb=<cb> xf=<kinds|-> ntok=<n>
+          | err extract
+        the plan is reconstructed from `alphaVP8LStream payload w h` (what DecodeAlpha rebuilds);
+        payload : the plan's stream minus its five header bytes IS the stored payload
+        valid   : `validPlanFor w h ((filter f w h plane).map embedGreen) plan`
+        both 1 ⇒ `Webp.Props.C07Lossless.alph_certificate_implies_roundtrip`: DecodeAlpha returns the plane.
 
   The driver (1) takes the VP8L payload out of the file with the model of `container.NewParser`,
   (2) RECONSTRUCTS a stream plan from the payload (`exStream`: the specification's readers, recording
@@ -202,6 +214,26 @@ def handle (op : String) (args : List String) : Option String :=
           let pe := Webp.Impl.PlanCheck.planEncodes sp argb
           some s!"ok file={b2s fileOK} stream={b2s sv} encodes={b2s pe} groups={sp.main.groups.length} bits={sp.main.histoBits} cb={sp.cacheBits} xf={kindsStr sp.transforms} ntok={sp.main.refs.length}"
     | _ => some "err container"
+  | "c07alph", [w, h, chunk, plane] => do
+    let w ← w.toNat?
+    let h ← h.toNat?
+    let chunk ← hexToBytes chunk
+    let plane ← hexToBytes plane
+    match chunk with
+    | [] => some "err empty"
+    | hdr :: payload =>
+      let method := (hdr &&& 3).toNat
+      let f := Webp.Impl.Alpha.Filter.ofField ((hdr >>> 2) &&& 3).toNat
+      if method ≠ 1 then some s!"ok method={method} filter={f.code}"
+      else
+        match exStream (ByteArray.mk (Webp.Impl.Alpha.alphaVP8LStream payload w h).toArray) with
+        | none => some "err extract"
+        | some sp =>
+          let payloadOK : Bool := (streamBytesMeta sp).data.toList.drop 5 == payload
+          let argb := (Webp.Impl.Alpha.filter f w h plane.toArray).map Webp.Impl.Alpha.embedGreen
+          let sizeOK : Bool := decide (0 < w) && decide (0 < h) && decide (w * h ≤ 2 ^ 30) && decide (plane.length = w * h)
+          let valid := sizeOK && Webp.Impl.PlanCheck.validPlanFor w h argb sp
+          some s!"ok method=1 filter={f.code} payload={b2s payloadOK} valid={b2s valid} groups={sp.main.groups.length} cb={sp.cacheBits} xf={kindsStr sp.transforms} ntok={sp.main.refs.length}"
   | _, _ => none
 
 end Driver.C01Full
